@@ -1206,7 +1206,9 @@ class LabReplay:
                         return
                     self.report("C19", "preparation_instruction_unreadable", key, f"{out.call}: cannot read {part!r}", ev, ctx["pre_key"])
                     return
-                items[mm.group(2)] = st
+                # a substance named more than once is added more than once by whoever follows the text: the amounts add up
+                prev = items.get(mm.group(2))
+                items[mm.group(2)] = st if prev is None else ((st[0] + prev[0], st[1], st[2] + prev[2]) if prev[1] == st[1] else (float("nan"), st[1], 0.0))
             for s_, x in want.items():
                 if x == 0:
                     continue
